@@ -100,6 +100,7 @@ type Deviation struct {
 }
 
 type World struct {
+	OnProbe            func(name string, arg any)
 	watchAddr          unsafe.Pointer
 	watchAcq, watchRel func()
 	tasks    []*Task
@@ -805,6 +806,14 @@ func RunUnlockHooks() {
 	w.cur.unlockHooks = nil
 	for _, h := range hs {
 		h()
+	}
+}
+
+// Probe is called at observation points the instrumenter inserted (simrewrite, probePoints); the
+// harness listens through World.OnProbe. Not a scheduling point.
+func Probe(name string, arg any) {
+	if w := W; w != nil && w.OnProbe != nil {
+		w.OnProbe(name, arg)
 	}
 }
 
